@@ -643,7 +643,7 @@ func (a *effAnalysis) addrLoc(addr ssa.Value) Loc {
 // reference argument is reported as Unknown.
 var pureExtPrefixes = []string{"fmt.", "strings.", "math.", "strconv.", "unicode/utf8.", "unicode.", "(time.Time).", "(time.Month).", "time.Now", "time.Date",
 	"(*container/list.List).Front", "(*container/list.List).Back", "(*container/list.List).Len", "(*container/list.Element).Next", "(*container/list.Element).Prev",
-	"(*sync.Mutex).Lock", "(*sync.Mutex).Unlock", "(*sync.RWMutex).", "errors.", "sort.SearchInts", "(*time.Location).", "time.", "(time.Duration).", "math/bits."}
+	"(*sync.Mutex).Lock", "(*sync.Mutex).Unlock", "(*sync.RWMutex).", "errors.", "sort.SearchInts", "(*time.Location).", "time.", "(time.Duration).", "math/bits.", "(*strings.Replacer).", "(*strings.Reader)."}
 
 var listMutators = map[string]bool{"PushBack": true, "PushFront": true, "Remove": true, "Init": true, "InsertBefore": true, "InsertAfter": true,
 	"MoveToFront": true, "MoveToBack": true, "MoveBefore": true, "MoveAfter": true, "PushBackList": true, "PushFrontList": true}
@@ -740,6 +740,30 @@ func (a *effAnalysis) call(common *ssa.CallCommon, pos token.Pos, callInstr *ssa
 	name := extName(callee)
 	if _, ok := a.res.Ext[name]; !ok {
 		a.res.Ext[name] = pos
+	}
+	if name == "(*sync.Once).Do" && len(common.Args) == 2 {
+		// once.Do(f) runs f (at most once): its effects are f's
+		var f *ssa.Function
+		switch v := common.Args[1].(type) {
+		case *ssa.MakeClosure:
+			f, _ = v.Fn.(*ssa.Function)
+		case *ssa.Function:
+			f = v
+		}
+		if f != nil && a.isLib(f) {
+			a.merge(a.e.With(f, nil), nil)
+			return
+		}
+	}
+	if (strings.HasPrefix(name, "(*strings.Builder).") || strings.HasPrefix(name, "(*bytes.Buffer).")) && len(common.Args) > 0 {
+		switch callee.Name() {
+		case "String", "Len", "Cap", "Bytes":
+		default:
+			if o := a.origin(common.Args[0]); o.Root != "a" {
+				a.write(Loc{Root: o.Root, Path: pathIf(o, "(buffer)"), Flat: "buffer"}, pos)
+			}
+		}
+		return
 	}
 	if strings.HasPrefix(name, "(*container/list.List).") && listMutators[callee.Name()] {
 		if len(common.Args) > 0 {
